@@ -94,6 +94,7 @@ let () =
           | PErr0 PAttrError -> print_endline "ERR AttributeError"
           | PErr0 PKeyError -> print_endline "ERR KeyError"
           | PErr0 PFuel0 -> print_endline "ERR fuel"
+          | PErr0 PGuardP -> print_endline "ERR Guard"
           | POk0 parts ->
             print_endline (String.concat ";" (List.map (fun pt ->
               let (el, ec) = part_end pt in
